@@ -369,24 +369,31 @@ fn check_run(s: &Suite, cfg: &RunCfg, expect_set: &[usize], ro: &RunOut) -> Vec<
         let Some(i) = names.iter().position(|nm| *nm == t.name) else { continue };
         let m = s.kinds[i].model(i);
         let tag = s.kinds[i].tag().to_string();
-        if t.state != m.state {
-            v.push((tag.clone(), "wrong-final-state".into(), format!("test {i} ({}) ended in {} but in isolation it ends in {}", t.name, t.state, m.state)));
+        if t.state == m.state && t.passed == m.passed && t.logs == m.logs {
+            continue;
         }
-        if t.passed != m.passed {
-            v.push((tag.clone(), if m.passed { "reported-failed-but-meets-expectation" } else { "reported-passed-but-violates-expectation" }.into(), format!("test {i} ({}) state {} reported passed={} expected passed={}", t.name, t.state, t.passed, m.passed)));
-        }
-        if t.logs != m.logs {
-            // classify: a log value owned by another test / the storage value written by another test
-            let foreign = t.logs.iter().find(|l| all_own_logs.get(*l).map(|o| *o != i).unwrap_or(false));
-            let shape = if matches!(s.kinds[i], Kind::Pristine) && t.logs.first() != m.logs.first() {
-                "storage-not-pristine"
-            } else if foreign.is_some() {
-                "logs-of-another-test-visible"
+        // one discrepancy per test; the most specific shape wins
+        let foreign = t.logs.iter().any(|l| all_own_logs.get(l).map(|o| *o != i).unwrap_or(false));
+        let shape = if matches!(s.kinds[i], Kind::Pristine) && t.logs.first() != m.logs.first() {
+            "storage-not-pristine"
+        } else if foreign {
+            "logs-of-another-test-visible"
+        } else if t.state != m.state {
+            "wrong-final-state"
+        } else if t.passed != m.passed {
+            if m.passed {
+                "reported-failed-but-meets-expectation"
             } else {
-                "logs-differ"
-            };
-            v.push((tag.clone(), shape.into(), format!("test {i} ({}) logs {:?}, in isolation {:?}", t.name, t.logs, m.logs)));
-        }
+                "reported-passed-but-violates-expectation"
+            }
+        } else {
+            "logs-differ"
+        };
+        v.push((
+            tag,
+            shape.into(),
+            format!("test {i} ({}) ended in {} passed={} logs={:?}; in isolation from the deployed state it ends in {} passed={} logs={:?}", t.name, t.state, t.passed, t.logs, m.state, m.passed, m.logs),
+        ));
     }
     v
 }
@@ -471,6 +478,17 @@ fn run(a: &vhcore::Args) -> i32 {
         }
     });
 
+    let mut resps = resps;
+    let failed: Vec<usize> = resps.iter().enumerate().filter(|(_, r)| r.is_err()).map(|(i, _)| i).collect();
+    if !failed.is_empty() {
+        eprintln!("[c29] re-running {} suites whose worker died or timed out", failed.len());
+        let retry_reqs: Vec<Req> = failed.iter().map(|i| Req { name: format!("c29_retry{i}"), ..reqs[*i].clone() }).collect();
+        let retry: Vec<Result<Resp, String>> = pool.run(&retry_reqs, &|_| {});
+        for (i, r) in failed.iter().zip(retry) {
+            resps[*i] = r;
+        }
+        rep.set("suites_retried_after_worker_failure", failed.len() as u64);
+    }
     let mut evaluations = 0u64;
     let mut test_executions = 0u64;
     let mut outcomes = vhcore::Distinct::default();
@@ -509,18 +527,10 @@ fn run(a: &vhcore::Args) -> i32 {
             }
         }
         for ((kind, shape), (ctxs, ci, text)) in found {
-            let all_cfg = ctxs.len() == cfgs.iter().map(|c| format!("{}/runners={}", c.2, runner_label(c.0.runners))).collect::<BTreeSet<_>>().len();
-            let base_fails = ctxs.contains("no-filter/runners=1");
-            let ctx = if all_cfg {
-                "every-config".to_string()
-            } else if base_fails {
-                "incl-unfiltered-single-runner".to_string()
-            } else {
-                // only under some filters / runner counts: name the classes
-                let fl: BTreeSet<&str> = ctxs.iter().map(|c| c.split('/').next().unwrap_or("")).collect();
-                let rl: BTreeSet<&str> = ctxs.iter().map(|c| c.split('/').nth(1).unwrap_or("")).collect();
-                format!("only:{}:{}", fl.into_iter().collect::<Vec<_>>().join("+"), rl.into_iter().collect::<Vec<_>>().join("+"))
-            };
+            // deterministic baseline (no filter, one runner) affected or not; the exact configurations
+            // go into the text, not into the key
+            let ctx = if ctxs.contains("no-filter/runners=1") { "incl-unfiltered-single-runner" } else { "only-under-some-filters-or-runner-counts" };
+            let text = format!("{text} [failing configurations: {}]", ctxs.iter().cloned().collect::<Vec<_>>().join(", "));
             let mut key = format!("{ID}|{kind}|{shape}|{ctx}");
             let (cfg, set, _) = &cfgs[ci];
             // confirm alone in Mode A (fresh engines, plain forc path), once per key
@@ -535,7 +545,7 @@ fn run(a: &vhcore::Args) -> i32 {
                 if still {
                     confirmed_keys.insert(key.clone());
                 } else {
-                    key.push_str("|only-in-mode-F");
+                    key.push_str("|not-reproduced-on-confirmation");
                 }
             }
             rep.violation(&key, &format!("suite #{si} [{}] runners={} filter={:?}: {text}", s.desc(), runner_label(cfg.runners), cfg.filter), suite_replay(s, cfg, set, &text));
